@@ -68,7 +68,7 @@ func cOptStr(p *string) string {
 	return cSome(cStr(*p))
 }
 func cList(items []string) string { return "[" + strings.Join(items, "; ") + "]" }
-func cPair(a, b string) string     { return "(" + a + ", " + b + ")" }
+func cPair(a, b string) string    { return "(" + a + ", " + b + ")" }
 
 type field struct{ name, val string }
 
